@@ -78,11 +78,13 @@ func (r *Redirector) Redirect(w http.ResponseWriter, req *http.Request, ro authb
 // this site. Only path-absolute targets are honoured: anything with a scheme
 // goes elsewhere, and browsers resolve "//host" and "/\host" (and the same
 // with tabs or newlines in between, which they strip) to another host too.
+// A backslash is refused anywhere in the target: http.Redirect cleans the
+// path before it writes the Location header, which turns "/a/../\host" into
+// "/\host".
 func isLocalRedirect(redir string) bool {
 	return strings.HasPrefix(redir, "/") &&
 		!strings.HasPrefix(redir, "//") &&
-		!strings.HasPrefix(redir, "/\\") &&
-		!strings.ContainsAny(redir, "\t\n\r")
+		!strings.ContainsAny(redir, "\\\t\n\r")
 }
 
 func (r Redirector) redirectAPI(w http.ResponseWriter, req *http.Request, ro authboss.RedirectOptions) error {
